@@ -17,6 +17,7 @@ CONSTANTS
   AuthSetups <- AuthSetupsDef
   Forms <- FormsDef
   AltForm <- AltFormDef
+  Scales <- ScalesDef
   Variant = "reuse"
 INVARIANT KeyFreshPerRun
 CHECK_DEADLOCK FALSE
